@@ -531,6 +531,17 @@ class SArr:
                 body = z3.If(hit, k.lift(value), z3.Select(base, q))
             self.store.arr = z3.Lambda([q], body)
             return
+        nzm = getattr(idx, "_nz_map", None)
+        if nzm is not None and not isinstance(value, SArr):
+            mask, mp = nzm
+            m = mask.snapshot()
+            p = z3.Int(eng().fresh_name("sp"))
+            sel = lambda pp: z3.And(pp >= 0, pp < mask.n, zbool(mask.kind.wrap(m(pp))))
+            eng().prove("safety:index", z3.ForAll([p], z3.Implies(sel(p), z3.And(mp(p) >= 0, mp(p) < n))), "derived fancy index in bounds")
+            p2 = z3.Int(eng().fresh_name("sp"))
+            hit = z3.And(q >= off, q < off + n, z3.Exists([p2], z3.And(sel(p2), mp(p2) == q - off)))
+            self.store.arr = z3.Lambda([q], z3.If(hit, k.lift(value), z3.Select(base, q)))
+            return
         sub = getattr(idx, "_nz_sub", None)
         if sub is not None and not isinstance(value, SArr):
             outer, rank, inner = sub
@@ -570,7 +581,22 @@ class SArr:
         def fn(i):
             r = elem(i)
             return _z(r) if not isinstance(r, (bool, int, float)) else k.lift(r)
-        return SArr.from_fn(k, self.n, fn)
+        out = SArr.from_fn(k, self.n, fn)
+        if not isinstance(o, SArr) and k is INT:
+            # an index array derived element-wise from the enumeration of a mask (idx = nonzero(mask)[0]; idx - c, maximum(idx, c), ...):
+            # remembered as "position p of the mask |-> derived index", so that  target[derived] = scalar  can be modelled without the enumeration
+            nz = getattr(self, "_nz_of", None)
+            prev = getattr(self, "_nz_map", None)
+            if nz is not None or prev is not None:
+                mask = nz[0] if nz is not None else prev[0]
+                pm = (lambda p: p) if nz is not None else prev[1]
+
+                def mp(p, pm=pm):
+                    x = ak.wrap(pm(p))
+                    r = f(o, x) if rev else f(x, o)
+                    return _z(r) if not isinstance(r, (bool, int, float)) else k.lift(r)
+                out._nz_map = (mask, mp)
+        return out
 
     def __add__(self, o): return self._ew(o, lambda x, y: x + y)
     def __radd__(self, o): return self._ew(o, lambda x, y: x + y, rev=True)
